@@ -3,6 +3,7 @@ resolvers, scalar codecs, directive stubs - wired from a schema model + plan."""
 import copy
 import itertools
 import types
+import zlib
 
 from tfv import boot
 
@@ -58,6 +59,7 @@ class DuckError(Exception):
         return out
 
 
+RAISED_CLASSES = [RuntimeError, TypeError, ValueError, AttributeError, LookupError, ArithmeticError, OSError, AssertionError]
 ODD_EXCEPTIONS = [
     lambda: KeyError(7), lambda: KeyError(None), lambda: KeyError((1, 2)), lambda: KeyError(), lambda: ValueError(), lambda: Exception(5),
     lambda: Exception(b"\xff"), lambda: Exception({"a": 1}), lambda: IndexError(3.5), lambda: Exception("a", 2), lambda: Exception(None),
@@ -234,7 +236,7 @@ class Harness:
         fd = fields_of(self.schema, obj)[field]
         f = rs.tree.faults.get(path) or rs.tree.faults.get(("$at", nid_of(parent), field))
         if f is not None:
-            return self.perform(rs, f)
+            return self.perform(rs, f, path=path)
         node = rs.tree.store["nodes"].get(str(nid_of(parent))) if nid_of(parent) is not None else None
         if node is None or field not in node:
             rs.unexpected.append((path, "%s.%s" % (obj, field)))
@@ -256,19 +258,28 @@ class Harness:
             return out
         return v
 
-    def perform(self, rs, f, as_item=False):
+    def perform(self, rs, f, as_item=False, path=None):
         n = next(rs.fault_seq)
         if f.kind == "raise":
-            raise RuntimeError("boom-%d" % n)
+            # user code fails with all sorts of exception classes
+            raise RAISED_CLASSES[(n + zlib.crc32(repr(path).encode())) % len(RAISED_CLASSES)]("boom-%d" % n)
         if f.kind == "raise_tartiflette":
             if f.payload.get("duck"):
                 raise DuckError(f.payload["message"], f.payload["extensions"])
-            raise UserError(f.payload["message"], f.payload["extensions"])
+            err = UserError(f.payload["message"], f.payload["extensions"])
+            if f.payload.get("located") and path is not None:
+                err.path = list(path)  # user code that fills in the path itself
+            raise err
         if f.kind == "return_exception":
             return ValueError("returned-%d" % n)
         if f.kind == "raise_odd":
             # what look-up style user code raises: exceptions whose arguments are not text, or missing
             raise ODD_EXCEPTIONS[f.payload % len(ODD_EXCEPTIONS)]()
+        if f.kind == "raise_shared":
+            # one exception object failing several positions of one request (a batch loader failing all its keys)
+            if getattr(rs, "shared_error", None) is None:
+                rs.shared_error = UserError("shared failure", {"code": "SHARED"})
+            raise rs.shared_error
         if f.kind == "raise_tagged_in_place":
             # user code annotating a library error it created without extensions, through the public attribute
             err = TartifletteError("Forbidden-%d" % n)
@@ -375,13 +386,28 @@ class Harness:
             steps.append(lambda an=an: TypeResolver(an, schema_name=self.name)(self.make_type_resolver("type")))
         for n, d in self.schema["types"].items():
             if d["kind"] == "SCALAR":
-                steps.append(lambda n=n, d=d: Scalar(n, schema_name=self.name)(make_scalar(CODECS[d.get("codec", "tagged")], self.plan.get("scalar_tag"))))
+                steps.append(lambda n=n, d=d: self.register_scalar(n, d))
+        if self.plan.get("override_string"):
+            # this schema name brings its own implementation of the built-in String (its SDL then declares `scalar String`)
+            steps.append(lambda: Scalar("String", schema_name=self.name)(make_string_override(self.plan["override_string"])))
         for n in self.schema.get("directives") or {}:
             if n in ("skip", "include", "deprecated", "nonIntrospectable"):
                 continue
             factory = getattr(self, "directive_factory", None) or (lambda n: make_counting_directive(self, n))
             steps.append(lambda n=n, factory=factory: Directive(n, schema_name=self.name)(factory(n)))
         return steps
+
+    def register_scalar(self, n, d):
+        """with plan["scalar_stateful"] the implementation class counts its uses per instance; harnesses sharing a
+        `stacked_scalars` dict (C17 siblings) decorate what the other's decorator call returned - the stacked-decorator idiom
+        @Scalar(n, schema_name=a) @Scalar(n, schema_name=b) class X - so both names are linked to one *class*"""
+        shared = getattr(self, "stacked_scalars", None)
+        impl = shared.get(n) if shared is not None else None
+        if impl is None:
+            impl = make_scalar(CODECS[d.get("codec", "tagged")], self.plan.get("scalar_tag"), bool(self.plan.get("scalar_stateful")))
+        ret = Scalar(n, schema_name=self.name)(impl)
+        if shared is not None:
+            shared[n] = ret
 
     def register(self):
         for step in self.registration_steps():
@@ -390,6 +416,8 @@ class Harness:
     async def build(self, **kw):
         self.register()
         self.sdl = self.plan.get("sdl") or print_sdl(self.schema, ext_dirs=bool(self.plan.get("sdl_ext_dirs")), split=self.plan.get("sdl_split"))
+        if self.plan.get("override_string"):
+            self.sdl += "\nscalar String\n"
         if self.plan.get("custom_default_resolver"):
             kw["custom_default_resolver"] = self.custom_default_resolver
         if self.plan.get("tr_engine"):
@@ -418,6 +446,31 @@ class Harness:
         self.rs = RequestState(self.rs.tree, self.ctx_token)
 
 
+class ArgHarness(Harness):
+    """adds a @Subscription source per field of the subscription root (if any): logs the arguments it was created
+    with (kept for scramble_live, like the resolvers' dictionaries) and yields one event"""
+
+    def __init__(self, *a, **k):
+        super().__init__(*a, **k)
+        self.sargs = []
+
+    def registration_steps(self):
+        steps = super().registration_steps()
+        root = self.schema["roots"].get("subscription")
+        H = self
+
+        def mk(fn):
+            async def source(parent, args, ctx, info):
+                H.sargs.append((fn, copy.deepcopy(args)))
+                H.live_args.append(args)
+                yield {}
+            return source
+
+        for fn in (self.schema["types"][root]["fields"] if root else ()):
+            steps.append(lambda fn=fn: Subscription("%s.%s" % (root, fn), schema_name=self.name)(mk(fn)))
+        return steps
+
+
 class CountingDirective:
     """Pass-through directive implementing every per-field / per-value hook; counts
     invocations in the request state of its harness.  One shared class, one *instance*
@@ -432,6 +485,9 @@ class CountingDirective:
         H, name = self.H, self.name
         rs = H.state_of(ctx)
         rs.hooks.append((name, "on_argument_execution"))
+        if H.plan.get("refuse_unwritten_arguments") and argument_node is None:
+            # a validating argument directive that refuses to work on a value the request did not write (SDL default)
+            raise ValueError("argument not written in the request")
         if H.gate is not None and H.plan.get("gate_hooks"):
             await H.gate(("hook", name, "on_argument_execution", len(rs.hooks), rs.rid))
         return await next_directive(parent_node, argument_definition_node, argument_node, value, ctx)
@@ -455,6 +511,21 @@ class CountingDirective:
     async def on_pre_output_coercion(self, directive_args, next_directive, value, ctx, info):
         self.H.state_of(ctx).hooks.append((self.name, "on_pre_output_coercion"))
         return await next_directive(value, ctx, info)
+
+    def denies(self, ctx):
+        return bool(self.H.plan.get("schema_hook_denies")) and isinstance(ctx, dict) and ctx.get("rid", 0) % 3 == 2
+
+    async def on_schema_execution(self, directive_args, next_directive, schema, document, parsing_errors, operation_name, context, variables, initial_value):
+        self.H.state_of(context).hooks.append((self.name, "on_schema_execution"))
+        if self.denies(context):
+            raise RuntimeError("request %s is not allowed" % context.get("rid"))  # an access rule that depends on the caller
+        # forwarding by keyword, as the parameter names are part of the documented signature
+        return await next_directive(schema, document, parsing_errors, operation_name=operation_name, context=context, variables=variables, initial_value=initial_value)
+
+    async def on_schema_subscription(self, directive_args, next_directive, schema, document, parsing_errors, operation_name, context, variables, initial_value):
+        self.H.state_of(context).hooks.append((self.name, "on_schema_subscription"))
+        async for result in next_directive(schema, document, parsing_errors, operation_name=operation_name, context=context, variables=variables, initial_value=initial_value):
+            yield result
 
     async def on_introspection(self, directive_args, next_directive, introspected_element, ctx, info):
         # with plan["introspection_by_rid"], what a caller may see depends on the caller: requests with an odd id do not
@@ -499,7 +570,17 @@ def materialise_bad(payload):
     return payload
 
 
-def make_scalar(codec, tag=None):
+def make_string_override(tag):
+    from tartiflette.scalar.builtins.string import ScalarString
+
+    class TaggedString(ScalarString):
+        def coerce_output(self, val):
+            return "%s~%s" % (super().coerce_output(val), tag)
+
+    return TaggedString
+
+
+def make_scalar(codec, tag=None, stateful=False):
     """tag: marks what this implementation's input side produces (C17: the same scalar name is implemented differently
     under every schema name; resolvers echo their arguments, so the marker shows in responses)"""
 
@@ -509,18 +590,27 @@ def make_scalar(codec, tag=None):
         return "%s~%s" % (v, tag) if isinstance(v, str) else v + 1000 * (1 + sum(map(ord, tag)) % 7)
 
     class _S:
+        def __init__(self):
+            self.uses = 0  # per-instance state (only shown when `stateful`)
+
         def coerce_output(self, v):
             return codec.to_wire(v)
 
+        def count(self, v):
+            if stateful:
+                self.uses += 1
+                v = "%s#%d" % (v, self.uses) if isinstance(v, str) else v + 100000 * self.uses
+            return v
+
         def coerce_input(self, v):
-            return mark(codec.from_wire(v))
+            return self.count(mark(codec.from_wire(v)))
 
         def parse_literal(self, ast):
             try:
                 if isinstance(ast, StringValueNode):
-                    return mark(codec.from_literal(["str", ast.value]))
+                    return self.count(mark(codec.from_literal(["str", ast.value])))
                 if isinstance(ast, IntValueNode):
-                    return mark(codec.from_literal(["int", str(ast.value)]))
+                    return self.count(mark(codec.from_literal(["int", str(ast.value)])))
             except ValueError:
                 pass
             return UNDEFINED_VALUE
